@@ -432,6 +432,21 @@ func (cs *Contracts) parseFile(path, src string) error {
 				}
 				break
 			}
+			if j := strings.Index(rest, ": exit "); j >= 0 && !strings.Contains(rest[:j], ": invariant ") {
+				key := strings.TrimSpace(rest[:j])
+				cl, err := parseClause(rest[j+len(": exit "):])
+				if err != nil {
+					return fmt.Errorf("%s:%d: %v", path, ln, err)
+				}
+				if cur.Exits == nil {
+					cur.Exits = map[string][]*Clause{}
+				}
+				cur.Exits[key] = append(cur.Exits[key], cl)
+				if _, ok := cur.Loops[key]; !ok {
+					cur.Loops[key] = nil // the key must match a loop
+				}
+				break
+			}
 			if j := strings.Index(rest, ": decreases "); j >= 0 && !strings.Contains(rest[:j], ": invariant ") {
 				key := strings.TrimSpace(rest[:j])
 				cl, err := parseClause(rest[j+len(": decreases "):])
